@@ -5,6 +5,7 @@ import Theorems.C03
 import Theorems.Typed
 import Theorems.Lazy
 import Theorems.IoRead
+import Theorems.Chunks
 
 namespace Amqp.Codec
 open Amqp.Gen.Codes
